@@ -2,6 +2,7 @@ package props
 
 import (
 	"fmt"
+	"go/constant"
 	"go/token"
 	"go/types"
 	"sort"
@@ -712,6 +713,12 @@ func collectCrashSites(p *core.Prog, fn *ssa.Function) []reachSite {
 	core.Instrs(fn, func(in ssa.Instruction) {
 		switch x := in.(type) {
 		case *ssa.Panic:
+			// go/ssa's own unreachable marker after a `select` without default is not a crash site of the program
+			if mi, ok := x.X.(*ssa.MakeInterface); ok {
+				if k, ok := mi.X.(*ssa.Const); ok && k.Value != nil && k.Value.Kind() == constant.String && constant.StringVal(k.Value) == "blocking select matched no case" {
+					return
+				}
+			}
 			out = append(out, reachSite{Fn: fn, Kind: "panic", Key: "panic@" + name, Pos: x.Pos(), Desc: "explicit panic"})
 		case *ssa.IndexAddr:
 			// slice index derived from a field of a request message
